@@ -176,7 +176,7 @@ Definition check_offsets (n : Z) (offs : list Z) : res unit :=
   if negb (nth 0 offs 0 =? 0) then Err T_BAD_OFFSET else
   if monotone (firstn (Z.to_nat (n + 1)) offs) then Ok tt else Err T_BAD_OFFSET.
 
-Definition UNSET : Z := -1.        (* TSK_NUM_ROWS_UNSET *)
+Definition UNSET : Z := 18446744073709551615.   (* TSK_NUM_ROWS_UNSET = (tsk_size_t) -1: a stored length of 2^64-1 is taken for "unset" *)
 
 (* read_table_cols; the accumulator is (num_rows, columns read so far, reversed) *)
 Fixpoint read_cols (rs : list ritem) (cols : list (list Z * Z * bool)) (nrows : Z)
@@ -253,7 +253,7 @@ Definition load_table (rs : list ritem) (s : tschema) : res table :=
   do cols' <- fold_right (fun (c : (list Z * Z * bool) * option (Z * list Z)) (acc : res (list (list Z))) =>
                         do l <- acc;
                         match c with
-                        | ((_, ty, _), Some (len, b)) => do d <- content ty len b; Ok (d :: l)
+                        | ((_, ty, _), Some (_, b)) => do d <- content ty n b; Ok (d :: l)   (* num_rows entries are used *)
                         | (_, None) => Ok (unknown_time_col n :: l)     (* only mutations/time is optional *)
                         end) (Ok []) (combine (s_rcols s) cols);
   Ok (mk_table n cols'
